@@ -10,7 +10,7 @@ LEAN_MODULES = ['GoSnaps.Props.C20', 'GoSnaps.Props.C20Summary', 'GoSnaps.Props.
 
 def make_spec(g, allow):
     r = g.r
-    h = gen_history(g, allow + ('badjson', 'badyaml'), max_tests=4, max_calls=6)
+    h = gen_history(g, allow + ('badjson', 'badyaml', 'badmatch'), max_tests=4, max_calls=6)
     second = []
     for name, calls in h.execs:
         cs = []
@@ -132,6 +132,10 @@ def render(tag, spec):
                                   for i in call_idx for cfgno in [int(ww.ops[i].split()[1])])
         if spec.get('orphan') and addressed_first_dir and 'orphan_file.snap' not in text:
             return 'the summary does not list the obsolete file orphan_file.snap that Clean judged obsolete'
+        if spec.get('orphan') and addressed_first_dir:
+            # it is the only obsolete file of the world: one row, and a header that counts one
+            if text.count('orphan_file.snap\n') != 1 or not re.search(r'(?m)^\S* ?1 snapshot file (obsolete|removed)$', text):
+                return 'one obsolete file (orphan_file.snap): the summary must list it once under a header counting 1 file, got %r' % text[:400]
         return None
     w.add('clean %s - 1' % spec['sort'], ('summary-equals-outcomes', oracle_sum))
     return w
